@@ -3,7 +3,7 @@
    Definitions only.  Used by the generated cases files of harness/props/c14.py; the
    harness converts a 4-tuple to a float with Python's sqrt (trusted, see manifest note). *)
 From Coq Require Import QArith ZArith List.
-From PV Require Import C14.ReprModel.
+From PV Require Import C14.ReprModel C14.ObsModel.
 Import ListNotations.
 
 Record surd := mkS { sa : Q; sb : Q; sc : Q; se : Q }.
@@ -101,4 +101,11 @@ Definition ladder_moments (d : nat) (s : gstate surd) (strings : list (list nat)
 Definition normalised (d : nat) (s : gstate surd) : list Z :=
   flat_map (flat_map zs) (norm_xpxp_cov K hbar (c_ihbar hb) d s) ++
   flat_map zs (norm_xpxp_mean K c_rt2 c_sh (c_ish hb) d s).
+
+(* observables of ObsModel.v: exact value / exact kernel arguments *)
+Definition variance_out (d : nat) (s : gstate surd) : list Z := zs (variance_photon_number K d s).
+Definition ps_out (d : nat) (s : gstate surd) (z : list (Q * Q)) : list Z :=
+  out_cmat (2 * d) (ps_M K c_i2 d s (qcvec z)).
+Definition purify_arg_out (d : nat) (s : gstate surd) : list Z :=
+  flat_map (flat_map zs) (purify_williamson_arg K hbar (c_ihbar hb) d s).
 End At.
